@@ -84,6 +84,23 @@ MUTATIONS = {
         ["C12"],
         [("flox/core.py", "    if nax == 1 and by_.ndim > 1 and expected_ is None:", "    if is_duck_dask_array(array) and array.size < 8 and bool(array.sum() == 0) or (nax == 1 and by_.ndim > 1 and expected_ is None):")],
     ),
+    "token_without_finalize_kwargs": (
+        ["C14"],
+        [("flox/aggregations.py", "            self.finalize_kwargs,\n            self.min_count,\n", "")],
+    ),
+    "scan_preprocess_const_name": (
+        ["C14"],
+        [("flox/core.py", 'name="groupby-scan-preprocess-" + tokenize(by, array),', 'name="groupby-scan-preprocess",')],
+    ),
+    "init_agg_no_deepcopy": (
+        ["C14"],
+        [("flox/aggregations.py", "            agg_ = copy.deepcopy(AGGREGATIONS[func])", "            agg_ = copy.copy(AGGREGATIONS[func])")],
+    ),
+    "optimal_chunks_cache_on_shape": (
+        ["C14", "C17"],
+        [("flox/core.py", "@memoize\ndef _get_optimal_chunks_for_groups(chunks, labels):\n",
+          "_OC_CACHE = {}\n\n\ndef _get_optimal_chunks_for_groups(chunks, labels):\n    key = (tuple(chunks), labels.shape, int(labels[-1]))\n    if key not in _OC_CACHE:\n        _OC_CACHE[key] = _get_optimal_chunks_for_groups_(chunks, labels)\n    return _OC_CACHE[key]\n\n\ndef _get_optimal_chunks_for_groups_(chunks, labels):\n")],
+    ),
     "nanmin_combine_min": (
         ["C04"],
         [("flox/aggregations.py", '    chunk="nanmin",\n    combine="nanmin",', '    chunk="nanmin",\n    combine="min",')],
